@@ -120,6 +120,22 @@ CLAIMED = {
              "whole import is not proved (component theorems + correspondence).",
         technique="Coq proof (relation-triple, min/max extent, flag and collision theorems on the importer model) + differential correspondence with a direct spec check",
         design="4 (C03)"),
+    "C11": dict(
+        text="Coq theorems (Properties/C11.v, 13 statements, closed under the global context) about the model of "
+             "make_query's featuretype/strand/ORDER BY handling: the result contains exactly the matching stored rows, each once; "
+             "it is strongly sorted (every earlier row <= every later row) under the lexicographic order of the requested "
+             "columns - all 12 incl. 'length' and 'file_order' - with the single ASC/DESC suffix bound to the last column; the "
+             "order is a total preorder (NULL < integers < text by code point), so results are determined up to ties; "
+             "unfiltered unordered iteration is input order; count_features_of_type = number iterated; featuretypes()/seqids() "
+             "= exactly the distinct values, each once. Tied to helpers.py/interface.py by ~2.3k queries per quick run (every "
+             "column as string and as tuple x reverse, multi-column orders, filters, counts), each accepted iff it has exactly "
+             "the model's members and is sorted under the model's comparator - evaluated inside Coq.",
+        note="Trusted: Coq kernel + vm_compute; Model/Order.v hand-written (SQLite value ordering and the 'suffix binds to "
+             "the last term' rule are modelled), tied by the correspondence; the stored JSON text of attributes/extra is "
+             "read back and used as the sort key for those columns. Ties are left free (SQLite does not fix them). Empty "
+             "featuretype collections (treated by the code as no filter) are outside the domain.",
+        technique="Coq proof (sort = sorted permutation under a proved total preorder; filter exactness) + differential correspondence with membership+sortedness acceptance",
+        design="4 (C11)"),
 }
 
 PENDING_REASON = "machinery for this property is not built yet in this revision (planned, see DESIGN.md section 4/9); not claimed until its check exists"
